@@ -168,7 +168,9 @@ func CmdCheck(args []string) int {
 			failures = append(failures, failure{name: key + "#structure#1", status: "contract-error", desc: er})
 		}
 		for _, o := range u.Obls {
-			if !hasTag(o.Tags, claim.Property) || !claim.kindAllowed(o.Kind) {
+			// a clause tagged explicitly with the property belongs to the claim whatever its kind
+			explicit := len(o.Tags) > 0 && hasTag(o.Tags, claim.Property)
+			if !hasTag(o.Tags, claim.Property) || !(claim.kindAllowed(o.Kind) || explicit) {
 				continue
 			}
 			if o.Smoke {
